@@ -247,6 +247,22 @@ def run(ctx):
     ctx.ob("R13.3", "from_exec_iter.accepts>=2", okp, fe.loc(pan[0][0] if pan else 0),
            "from_exec_iter may refuse (panic) only when the collection holds fewer than two commands; found %d panic site(s), guard edges %s" % (len(pan), small_e))
 
+    # the same for every pipeline method: a length test may refuse (panic) only for fewer than two commands
+    for p_, f_ in sorted(prog.fns.items()):
+        if not p_.startswith("builder::pipeline::") or "{closure" in p_ or f_ is fe:
+            continue
+        Tl = M.Terms(f_)
+        islen_ = lambda u: M.contains(u, lambda w: w[0] == "call" and w[1].endswith("Vec::<T, A>::len") and M.contains(w, lambda x: x[0] == "field" and x[2] == "cmds"))
+        anylen = lambda c: c[0] == "bin" and c[1] in ("Lt", "Le", "Gt", "Ge", "Eq", "Ne") and (islen_(c[2]) or islen_(c[3])) and (const_of(c[2]) is not None or const_of(c[3]) is not None)
+        guards = bool_edges(f_, Tl, anylen, True) + bool_edges(f_, Tl, anylen, False)
+        if not guards:
+            continue
+        small = bool_edges(f_, Tl, _small, True) + bool_edges(f_, Tl, _big, False)
+        for bb, t in f_.calls():
+            if is_panic_call(t) and dominated_by_edges(f_, bb, guards):
+                ctx.ob("R13.3", "%s.refuses-only-below-2" % p_.split("::")[-1], dominated_by_edges(f_, bb, small), f_.loc(bb),
+                       "%s panics under a test on cmds.len(): the only admissible refusal is `len < 2` (a pipeline of two commands is valid)" % p_)
+
     # ---- R13.2 (setters) what the caller configures on the pipeline lands in the field the spawn loop reads it from -----------
     PL = "builder::pipeline::Pipeline"
     FIELDS = [f_["name"] for f_ in prog.adts[PL]["variants"][0]["fields"]]
